@@ -69,6 +69,22 @@ func (p *c05) build(i, attempt int) (*Program, gen.Expr) {
 		e = g.Scalar(depth)
 	}
 	spelled := gen.FullParen(e)
+	if i >= len(p.table) && i%3 == 0 {
+		// the same expression nodes evaluated three times in one execution under different variable values
+		// (anything remembered per node - a compiled pattern, a folded constant, a looked-up callee - shows)
+		row := func(n, s, pat string, t bool) gen.Expr {
+			return &gen.EArr{Els: []gen.Expr{&gen.ENum{Text: n}, &gen.EStr{S: s}, &gen.EStr{S: pat}, &gen.EBool{V: t}}}
+		}
+		rows := &gen.EArr{Els: []gen.Expr{row("3", "abc", "^a", true), row("5", "b", "c$", false), row("1", "12", "[0-9]", true)}}
+		at := func(k int) gen.Expr {
+			return &gen.EAttr{X: &gen.EName{Name: "row"}, Key: &gen.ENum{Text: fmt.Sprint(k)}}
+		}
+		loop := &gen.NFor{Val: "row", Seq: rows, Body: []gen.Node{
+			&gen.NSet{Name: "n1", X: at(0)}, &gen.NSet{Name: "s1", X: at(1)}, &gen.NSet{Name: "pat", X: at(2)}, &gen.NSet{Name: "t", X: at(3)},
+			&gen.NPrint{X: spelled}, &gen.NText{S: ";"}}}
+		t := &gen.Template{Name: "main", Body: []gen.Node{&gen.NText{S: "["}, loop, &gen.NText{S: "]"}}}
+		return &Program{Templates: map[string]*gen.Template{"main": t}, Main: "main", Ctx: ctx}, e
+	}
 	t := &gen.Template{Name: "main", Body: []gen.Node{&gen.NText{S: "["}, &gen.NPrint{X: spelled}, &gen.NText{S: "]"}}}
 	return &Program{Templates: map[string]*gen.Template{"main": t}, Main: "main", Ctx: ctx}, e
 }
@@ -197,7 +213,7 @@ func (p *c05) Run(i int) (res fw.Result) {
 }
 
 func (p *c05) Rule() string {
-	return fmt.Sprintf("cases: exhaustive depth-1 table (%d binary operators x 28x28 operand forms, 3 unary operators, conditional) filtered by the reference model's agreement region, plus seeded typed random expression trees (depth<=4 quick, <=6 thorough) over literals, context variables carried by different Go numeric types, arrays, single-entry hashes, interpolation, attribute access and recording functions/filters/tests; every tree is spelled fully parenthesised, rendered through a recording core environment and compared with the reference evaluator on printed value, error-or-not and the exact callback log (name, argument values in order, piped value first, template name). Trees the model refuses (outside the agreement region: zero divisors, non-dyadic quotients, |result|>=10^6, mixed-type equality, negative numbers or \"0\" in boolean context, string haystacks) are regenerated. Non-trivial = depth>=2 or >=1 callback; distinct = expression shape with operators, variable names and literal classes.", len(c05BinOps))
+	return fmt.Sprintf("cases: exhaustive depth-1 table (%d binary operators x 28x28 operand forms, 3 unary operators, conditional) filtered by the reference model's agreement region, plus seeded typed random expression trees (depth<=4 quick, <=6 thorough) over literals, context variables carried by different Go numeric types, arrays, single-entry hashes, interpolation, attribute access and recording functions/filters/tests; every third random tree is evaluated three times in one execution (in a loop that re-assigns n1, s1, pat and t), so that its nodes are re-evaluated under other values; every tree is spelled fully parenthesised, rendered through a recording core environment and compared with the reference evaluator on printed value, error-or-not and the exact callback log (name, argument values in order, piped value first, template name). Trees the model refuses (outside the agreement region: zero divisors, non-dyadic quotients, |result|>=10^6, mixed-type equality, negative numbers or \"0\" in boolean context, string haystacks) are regenerated. Non-trivial = depth>=2 or >=1 callback; distinct = expression shape with operators, variable names and literal classes.", len(c05BinOps))
 }
 
 func (p *c05) Assumptions() []string {
